@@ -70,24 +70,28 @@ def confirm(src, prop, name):
 
 
 def run(seed, ids):
+    """Applies the stored patch to a scratch worktree of /repo (never to /repo itself, which other runs may be using) and runs
+    the quick checks against it through VERIF_REPO."""
     d = os.path.join(SEEDED, seed)
     meta = json.load(open(os.path.join(d, "meta.json")))
     ids = ids or [meta["property"]]
-    rc, out = sh("git -C /repo diff --quiet")
+    wt = "/tmp/seedrun-repo"
+    sh("git -C /repo worktree remove --force %s" % wt)
+    rc, out = sh("git -C /repo worktree add -q --detach %s HEAD" % wt)
     if rc != 0:
-        print("/repo has uncommitted changes"); return 2
-    rc, out = sh("git -C /repo apply %s" % os.path.join(d, "patch.diff"))
-    if rc != 0:
-        print("patch does not apply to /repo:", out); return 2
+        print(out); return 2
     try:
+        rc, out = sh("git apply %s" % os.path.join(d, "patch.diff"), cwd=wt)
+        if rc != 0:
+            print("patch does not apply:", out); return 2
         for i in ids:
-            rc, out = sh("python3 tools/verif.py check %s" % i, cwd=ROOT)
+            rc, out = sh("VERIF_REPO=%s VERIF_WORK_SUFFIX=-seed python3 tools/verif.py check %s" % (wt, i), cwd=ROOT)
             nviol = out.count("\nVIOLATION")
             first = [l for l in out.splitlines() if l.startswith("VIOLATION") or l.startswith("    {")][:2]
             meta["checks"][i] = dict(exit=rc, detected=(rc == 1), violations_listed=nviol, first=[f[:300] for f in first], at=time.strftime("%Y-%m-%dT%H:%M:%S"))
             print("SEED %s check %s: exit=%d detected=%s (%d listed) %s" % (seed, i, rc, rc == 1, nviol, first[1][:160] if len(first) > 1 else ""))
     finally:
-        sh("git -C /repo checkout -- .")
+        sh("git -C /repo worktree remove --force %s" % wt)
     json.dump(meta, open(os.path.join(d, "meta.json"), "w"), indent=1)
     return 0
 
